@@ -602,7 +602,7 @@ func judge(c *caseData, o *obs) []verdict {
 		}
 		// the tail variant only matters when the program ended "normally": an error of the wrong kind
 		// comes out of the shape itself whatever follows it
-		tag := c.Shape
+		tag := c.Shape + c.reuseTag()
 		if o.ErrNil {
 			tag = c.shapeTag()
 		}
@@ -989,9 +989,13 @@ func drive(d *mon.Driver, replay string) int {
 		byKind[k] = append(byKind[k], cd)
 	}
 	sort.Strings(kinds)
+	hangConfirms := 0
 	for more := true; more && len(confirm) < 60; {
 		more = false
 		for _, k := range kinds {
+			if k == "no-return" && hangConfirms >= 12 {
+				continue // each costs two doubled watchdogs; a dozen confirmed hangs say enough
+			}
 			for len(byKind[k]) > 0 {
 				cd := byKind[k][0]
 				byKind[k] = byKind[k][1:]
@@ -1014,6 +1018,9 @@ func drive(d *mon.Driver, replay string) int {
 					if strings.HasPrefix(sig, "no-return:") {
 						c.Repeat = 2
 					}
+				}
+				if k == "no-return" {
+					hangConfirms++
 				}
 				confirm = append(confirm, mon.NewCase(cd.id, "case", c))
 				want[cd.id] = cd
@@ -1039,7 +1046,7 @@ func drive(d *mon.Driver, replay string) int {
 	}
 	d.Extra("candidate_signatures_first_pass", candSigs)
 	if len(confirm) > 0 {
-		d.RunPool(confirm, mon.PoolOpts{BatchSize: 1, Parallel: 4, BatchTimeout: 5 * time.Minute, NoRetry: true}, func(mc mon.Case, res mon.Result) {
+		d.RunPool(confirm, mon.PoolOpts{BatchSize: 1, Parallel: 6, BatchTimeout: 5 * time.Minute, NoRetry: true}, func(mc mon.Case, res mon.Result) {
 			c := byID[mc.ID]
 			cd := want[mc.ID]
 			if res.Status == "timeout" {
